@@ -20,16 +20,24 @@
 (*  redirect auth/api/iam/user.go handleUserLanding                        *)
 (*             GetAndDelete ; [session, metadata, ...]                     *)
 (*  s2snonce auth/api/iam/s2s_vptoken.go validateS2SPresentationNonce      *)
-(*             Get ; Put (unconditional) ; [VerifyVP, ...]                 *)
+(*             Lock ; Get ; Put (unconditional) ; Unlock ; [VerifyVP, ...] *)
 (*  dpopjti  auth/api/iam/dpop.go ValidateDPoPProof                        *)
-(*             Get ; [miss] Put                                            *)
+(*             Lock ; Get ; [miss] Put ; Unlock                            *)
 (*  preauth  vcr/issuer/openid.go HandleAccessTokenRequest over            *)
 (*           openid_store.go: Exists ; Get ; ... ; Delete                  *)
 (*                                                                         *)
 (* storage/session.go: GetAndDelete(k) == Get(k) ; [hit] Delete(k), i.e.   *)
 (* two primitives.  The boolean constants below name each place where the  *)
-(* code (FALSE, descriptive) deviates from what the property needs (TRUE,  *)
-(* prescriptive: one indivisible primitive).                               *)
+(* code deviated (FALSE) from what the property needs (TRUE, prescriptive: *)
+(* one indivisible step).  Three are repaired in the code (one mutex per   *)
+(* site around lookup and burn: F6-code .. F6-redirect, F6-s2snonce,       *)
+(* F6-dpopjti), so the descriptive configurations set them TRUE as well;   *)
+(* AtomicPreAuthCode is still FALSE there (F6-preauth, open).              *)
+(* The configurations that GENERATE schedules and that                     *)
+(* validate recorded traces keep them FALSE (permissive variant, one       *)
+(* action per primitive): the interleaved schedules are the ones on which  *)
+(* code without the serialisation shows the double success, and the gated  *)
+(* store records the two primitives of a serialised step separately.       *)
 (*                                                                         *)
 (* Request context.  "Requests presenting the same value" need not be      *)
 (* copies of one another: the value may arrive in another legal request    *)
